@@ -448,4 +448,152 @@ theorem selfOnly_welcomeStateP {L : Nat → Prop} (mp : Nat) (g : GState) (e : E
 theorem pso_init {L : Nat → Prop} (id : Nat) (p : Bool) (r : Nat) (ms as : List Nat) (name : Nat) : PropsSelfOnly L (initCl id p r ms as name) :=
   ⟨selfOnly_cleared _ rfl rfl rfl, by intro s hs; cases hs⟩
 
+/-! ### agreement with `Model.Client`: on events that reference no queued proposal and are not proposals, and at clients
+    whose staged commits reference nothing foreign, `Model.Proposal` IS `Model.Client` -/
+
+/-- staged own commits — now and in every state a rollback can restore — reference nothing foreign -/
+def PendClean (c : Cl) : Prop :=
+  (∀ e, c.g.pending = some e → e.sweptX = []) ∧ ∀ s ∈ c.mgr, ∀ e, s.saved.pending = some e → e.sweptX = []
+
+/-- an application message, or a commit that references no queued proposal and does not remove the receiver `me` -/
+def OldKind (me : Nat) (e : Ev) : Prop :=
+  e.sweptX = [] ∧ match e.kind with
+    | .app _ _ _ => True
+    | .commit b sw => sw = [] ∧ removesMe me b [] = false
+    | .leave => False
+
+theorem pendClean_withSecret (c : Cl) (h : PendClean c) : PendClean (withSecret c) :=
+  ⟨by intro e he; exact h.1 e (by simpa [withSecret] using he), h.2⟩
+
+theorem pendClean_rollbackTo (c c1 : Cl) (ep : Nat) (h : PendClean c) (hr : rollbackTo c ep = some c1) : PendClean c1 ∧ c1.id = c.id := by
+  unfold rollbackTo at hr
+  split at hr
+  · cases hr
+  · rename_i i _
+    split at hr
+    · cases hr
+    · rename_i s rest hd
+      cases hr
+      have hs : s ∈ c.mgr := List.mem_of_mem_drop (by rw [hd]; simp)
+      exact ⟨⟨h.2 s hs, fun t ht => h.2 t (List.mem_of_mem_take ht)⟩, rfl⟩
+
+theorem wrongEpochCommit_congr (r1 r2 : Cl → Option (Cl × Res)) (c : Cl) (e : Ev) (ee : Nat)
+    (h : ∀ c1, rollbackTo c ee = some c1 → r1 c1 = r2 c1) : wrongEpochCommit r1 c e ee = wrongEpochCommit r2 c e ee := by
+  unfold wrongEpochCommit
+  split
+  · split
+    · rename_i c1 hr
+      rw [h c1 hr]
+    · rfl
+  · rfl
+
+theorem processCommitP_eq (c : Cl) (e : Ev) (b : Body) (hx : e.sweptX = []) (hme : removesMe c.id b [] = false) :
+    processCommitP c e b [] = processCommit c e b [] := by
+  unfold processCommitP processCommit
+  have h1 : isPureSelfUpdateP b [] e.sweptX = isPureSelfUpdate b [] := by simp [isPureSelfUpdateP, hx]
+  have h2 : removesMeP c.id b [] e.sweptX = false := by simp [removesMeP, hx, hme, xTargets]
+  have h3 : ∀ g, mergeCommitP c.maxPast g e = mergeCommit c.maxPast g e := fun g => mergeCommitP_eq _ g e hx
+  simp only [h1, h2, h3, hme]
+  rfl
+
+theorem step1P_agrees (r1 r2 : Cl → Option (Cl × Res)) (nx : Nat) (c : Cl) (e : Ev) (hc : PendClean c) (hk : OldKind c.id e)
+    (hr : ∀ c1, PendClean c1 → c1.id = c.id → r1 c1 = r2 c1) : step1P r1 nx c { e := e } = step1 r2 nx c e := by
+  obtain ⟨hx, hkind⟩ := hk
+  have hw := pendClean_withSecret c hc
+  unfold step1P step1
+  simp only
+  split
+  · rfl
+  · split
+    · rfl
+    · split
+      · rfl
+      · cases hk : e.kind with
+        | leave => rw [hk] at hkind; exact absurd hkind (by simp)
+        | app m t k => simp only [propKind, hk]
+        | commit b sw =>
+          rw [hk] at hkind
+          obtain ⟨hsw, hme⟩ := hkind
+          subst hsw
+          simp only [propKind, hk]
+          split
+          · apply wrongEpochCommit_congr
+            intro c1 h1
+            obtain ⟨hp1, hid1⟩ := pendClean_rollbackTo _ c1 _ hw h1
+            exact hr c1 hp1 (by rw [hid1]; rfl)
+          · split
+            · cases hpc : (withSecret c).g.pending with
+              | none => rfl
+              | some pc =>
+                have : pc.sweptX = [] := hw.1 pc hpc
+                simp only [mgrCreate, mergeCommitP_eq _ _ pc this]
+            · split
+              · rfl
+              · have hh : holdsRefs (withSecret c).g [] e.sweptX = true := by simp [holdsRefs, hx]
+                simp only [hh, Bool.not_true, Bool.false_eq_true, if_false]
+                exact processCommitP_eq _ e b hx hme
+
+/-- **`Model.Proposal` agrees with `Model.Client`** — for every client whose staged commits reference nothing foreign, every
+    application message and every commit that references no queued proposal and does not remove the receiver, every fuel:
+    `deliverNP` and `deliverN` give the same result and the same state (through rollbacks and re-processing) -/
+theorem deliverNP_agrees (fuel nx : Nat) (c : Cl) (e : Ev) (hc : PendClean c) (hk : OldKind c.id e) :
+    deliverNP fuel nx c { e := e } = deliverN fuel nx c e := by
+  induction fuel generalizing c with
+  | zero =>
+    simp only [deliverNP, deliverN, deliverOnceP, deliverOnce]
+    rw [step1P_agrees (fun _ => none) (fun _ => none) nx c e hc hk (fun _ _ _ => rfl)]
+    rfl
+  | succ f ih =>
+    simp only [deliverNP, deliverN, deliverOnceP, deliverOnce]
+    rw [step1P_agrees (fun c1 => some (deliverNP f nx c1 { e := e })) (fun c1 => some (deliverN f nx c1 e)) nx c e hc hk
+      (fun c1 h1 hid => by rw [ih c1 h1 (by rw [hid]; exact hk)])]
+    rfl
+
+/-- a member's own leave at a receiver that is NOT an admin: queued exactly as `Model.Client` says -/
+theorem step1P_leave_nonadmin (r1 r2 : Cl → Option (Cl × Res)) (nx : Nat) (c : Cl) (e : Ev) (hk : e.kind = .leave)
+    (hna : isAdmin c.g c.id = false) : step1P r1 nx c { e := e } = step1 r2 nx c e := by
+  have ha : isAdmin (withSecret c).g (withSecret c).id = false := by simpa [isAdmin] using hna
+  unfold step1P step1
+  simp only [propKind, hk]
+  split
+  · rfl
+  · split
+    · rfl
+    · split
+      · rfl
+      · split
+        · rfl
+        · split
+          · rfl
+          · split
+            · rfl
+            · have ha' : isAdmin (withSecret c).g c.id = false := ha
+              simp [processProposal, storeProp, isAdmin] at ha' ⊢
+              simp [isAdmin, ha']
+
+/-- the local operations: with nothing foreign queued (and no own removal queued) they are `Model.Client`'s -/
+theorem stageCommitP_agrees (c : Cl) (n ts idn : Nat) (b : Body) (na : Bool) (hx : c.g.xq = []) (hs : c.g.props.contains c.id = false) :
+    stageCommitP c n ts idn b na = stageCommit c n ts idn b na := by
+  have hs' : c.id ∉ c.g.props := by simpa using hs
+  have hsr : storeRemoves c.g c.id = false := by simp [storeRemoves, hs', hx, xTargets]
+  have hw : welcomeRefused b [] = false := by simp [welcomeRefused, xAdds]
+  unfold stageCommitP stageCommit
+  simp only [hsr, Bool.or_false, ensureSecret_xq, hx, hw, Bool.false_eq_true, if_false]
+
+theorem sendP_agrees (c : Cl) (n ts idn mid mts tok : Nat) (hx : c.g.xq = []) : sendP c n ts idn mid mts tok = send c n ts idn mid mts tok := by
+  unfold sendP send
+  simp only [storeEmpty, hx, List.isEmpty_nil, Bool.and_true]
+  repeat' split
+  all_goals first | rfl | (rename_i h1 h2; simp_all)
+
+theorem mergeP_agrees (c : Cl) (h : PendClean c) : mergeP c = merge c := by
+  unfold mergeP merge
+  split
+  · rfl
+  · split
+    · rfl
+    · cases hp : c.g.pending with
+      | none => rfl
+      | some p => simp only [mergeCommitP_eq _ _ p (h.1 p hp)]
+
 end MdkVerif.Proposal
